@@ -4,6 +4,7 @@ import DarkluaModel.Rules.FunctionToAssign
 import DarkluaModel.Rules.RemoveMethodCall
 import DarkluaModel.Rules.ConvertSquareRootCall
 import DarkluaModel.C16.Whole
+import DarkluaModel.Rules.FunctionToAssignHeapV
 /-!
 # C16 — the optional refactoring rules preserve program behaviour: property theorems
 
@@ -250,6 +251,24 @@ example : FunctionToAssign.apply ftaSample =
   rfl
 example : Guard.Good Whole.ftaFlags
     (.mk [.function ["a", "b", "c"] none (.mk [] false none none [] [] (.mk [] none))] none) = false := by decide
+
+/-- **`function_to_assign_rule_refinesV` (whole rule, EVERY program).** Through the stage-4 lifting (renumbering of
+cells, tables and closures, `Shared/VisitorSoundHeapV.lean`): `convert_function_to_assignment` preserves the
+observable outcome of every program — function statements with arbitrarily long names (`function a.b.c:m`)
+included: the closure the original allocates before walking `a.b.c` is pinned and matched with the closure the
+assignment allocates after the walk, whatever `__index` handlers run in between. Hypothesis: the oracle of
+external functions returns no heap references (`OracleFlat ρ`). -/
+theorem function_to_assign_rule_refinesV (b : Block) {N : NumOps} (ρ : ExtOracle N) (hρ : Sem.HeapV.OracleFlat ρ)
+    (n : Nat) (externs : List String) :
+    runProgram ρ n externs (FunctionToAssign.apply b) = runProgram ρ n externs b :=
+  FunctionToAssign.apply_refines b ρ hρ n externs
+
+-- non-vacuity: a program outside `Good ftaFlags` on which the rule fires
+example : FunctionToAssign.apply
+      (.mk [.function ["a", "b", "c"] (some "m") (.mk [.mk "x" none] false none none [] [] (.mk [] none))] none)
+    = .mk [.assign [.field (.field (.field (.var "a") "b") "c") "m"]
+        [.fn (.mk [.mk "self" none, .mk "x" none] false none none [] [] (.mk [] none))]] none := by
+  rfl
 
 /-! ## remove_method_call -/
 
